@@ -13,6 +13,7 @@ import (
 	"path/filepath"
 	"regexp"
 	"runtime"
+	"sort"
 	"strconv"
 	"strings"
 	"sync"
@@ -1608,6 +1609,36 @@ func (e *Engine) DeleteSeriesRangeWithPredicate(itr tsdb.SeriesIterator, predica
 	return nil
 }
 
+// compareSeriesKeys compares two series keys in the order in which their composite keys
+// (series key + keyFieldSeparator + field) sort in a TSM index or in the cache keys: as if the
+// field separator were appended to both. This differs from plain byte order when one series
+// key is a prefix of the other.
+func compareSeriesKeys(a, b []byte) int {
+	n := len(a)
+	if len(b) < n {
+		n = len(b)
+	}
+	if c := bytes.Compare(a[:n], b[:n]); c != 0 {
+		return c
+	}
+	at := func(k []byte, i int) byte {
+		if i < len(k) {
+			return k[i]
+		}
+		return keyFieldSeparatorBytes[i-len(k)]
+	}
+	la, lb := len(a)+len(keyFieldSeparatorBytes), len(b)+len(keyFieldSeparatorBytes)
+	for i := n; i < la && i < lb; i++ {
+		if x, y := at(a, i), at(b, i); x != y {
+			if x < y {
+				return -1
+			}
+			return 1
+		}
+	}
+	return la - lb
+}
+
 // deleteSeriesRange removes the values between min and max (inclusive) from all series.  This
 // does not update the index or disable compactions.  This should mainly be called by DeleteSeriesRange
 // and not directly.
@@ -1643,10 +1674,8 @@ func (e *Engine) deleteSeriesRange(seriesKeys [][]byte, min, max int64) error {
 		return nil
 	}
 
-	// Ensure keys are sorted since lower layers require them to be.
-	if !bytesutil.IsSorted(seriesKeys) {
-		bytesutil.Sort(seriesKeys)
-	}
+	// Ensure keys are sorted in the order of the composite keys they are merged with below.
+	sort.Slice(seriesKeys, func(i, j int) bool { return compareSeriesKeys(seriesKeys[i], seriesKeys[j]) < 0 })
 
 	// Run the delete on each TSM file in parallel
 	if err := e.FileStore.Apply(func(r TSMFile) error {
@@ -1657,7 +1686,7 @@ func (e *Engine) deleteSeriesRange(seriesKeys [][]byte, min, max int64) error {
 		tsmMin, _ = SeriesAndFieldFromCompositeKey(tsmMin)
 		tsmMax, _ = SeriesAndFieldFromCompositeKey(tsmMax)
 
-		overlaps := bytes.Compare(tsmMin, maxKey) <= 0 && bytes.Compare(tsmMax, minKey) >= 0
+		overlaps := compareSeriesKeys(tsmMin, maxKey) <= 0 && compareSeriesKeys(tsmMax, minKey) >= 0
 		if !overlaps || !r.OverlapsTimeRange(min, max) {
 			return nil
 		}
@@ -1670,7 +1699,7 @@ func (e *Engine) deleteSeriesRange(seriesKeys [][]byte, min, max int64) error {
 			indexKey, _ := r.KeyAt(i)
 			seriesKey, _ := SeriesAndFieldFromCompositeKey(indexKey)
 
-			for j < len(seriesKeys) && bytes.Compare(seriesKeys[j], seriesKey) < 0 {
+			for j < len(seriesKeys) && compareSeriesKeys(seriesKeys[j], seriesKey) < 0 {
 				j++
 			}
 
@@ -1699,7 +1728,7 @@ func (e *Engine) deleteSeriesRange(seriesKeys [][]byte, min, max int64) error {
 
 		// Cache does not walk keys in sorted order, so search the sorted
 		// series we need to delete to see if any of the cache keys match.
-		i := bytesutil.SearchBytes(seriesKeys, seriesKey)
+		i := sort.Search(len(seriesKeys), func(i int) bool { return compareSeriesKeys(seriesKeys[i], seriesKey) >= 0 })
 		if i < len(seriesKeys) && bytes.Equal(seriesKey, seriesKeys[i]) {
 			// k is the measurement + tags + sep + field
 			deleteKeys = append(deleteKeys, k)
@@ -1749,14 +1778,14 @@ func (e *Engine) deleteSeriesRange(seriesKeys [][]byte, min, max int64) error {
 
 			// Skip over any deleted keys that are less than our tsm key
 			seriesKeysLock.RLock()
-			cmp := bytes.Compare(seriesKeys[j], seriesKey)
+			cmp := compareSeriesKeys(seriesKeys[j], seriesKey)
 			for j < len(seriesKeys) && cmp < 0 {
 				j++
 				if j >= len(seriesKeys) {
 					seriesKeysLock.RUnlock()
 					return nil
 				}
-				cmp = bytes.Compare(seriesKeys[j], seriesKey)
+				cmp = compareSeriesKeys(seriesKeys[j], seriesKey)
 			}
 			seriesKeysLock.RUnlock()
 
@@ -1782,7 +1811,8 @@ func (e *Engine) deleteSeriesRange(seriesKeys [][]byte, min, max int64) error {
 			continue
 		}
 
-		j := bytesutil.SearchBytes(cacheKeys, seriesKey)
+		// the first cache key of this series, if any: series key + field separator + field
+		j := bytesutil.SearchBytes(cacheKeys, append(append([]byte(nil), seriesKey...), keyFieldSeparatorBytes...))
 		if j < len(cacheKeys) {
 			cacheSeriesKey, _ := SeriesAndFieldFromCompositeKey(cacheKeys[j])
 			if bytes.Equal(seriesKey, cacheSeriesKey) {
